@@ -32,7 +32,9 @@
  * copies and prints `end live=<n> bad=<n>`. */
 static int E;       /* errno of the windowed call */
 static long A;      /* allocation attempts of the windowed call */
-#define WIN(stmt) do { errno = 0; aw_begin(); stmt; E = errno; A = aw_end(); printf("allocs=%ld ", A); } while (0)
+#define WIN(stmt) do { PLANT(); aw_begin(); stmt; E = errno; A = aw_end(); printf("allocs=%ld ", A); } while (0)
+/* errno is the call's only failure report: the caller clears it first (see seqkeep.h) */
+#define WIN0(stmt) do { PLANT0(); aw_begin(); stmt; E = errno; A = aw_end(); printf("allocs=%ld ", A); } while (0)
 
 enum { K_NONE, K_LIST, K_QUEUE, K_STACK, K_GROW };
 static int kind = K_NONE;
@@ -99,6 +101,7 @@ static void dump(void) {
     } else if (kind == K_GROW) {
         sz = qgrow_size(G);
         size_t asz = 7777;
+        PLANT();
         void *a = qgrow_toarray(G, &asz);
         printf(" sz=%zu dsz=%zu arr=", sz, qgrow_datasize(G));
         if (a == NULL) printf("null"); else puthex(stdout, a, asz);
@@ -111,6 +114,7 @@ static void dump(void) {
     }
     for (size_t i = 0; i < sz; i++) {
         size_t esz = 0;
+        PLANT();
         void *d = kind == K_LIST ? qlist_getat(L, (int) i, &esz, true)
                 : kind == K_QUEUE ? qqueue_getat(Q, (int) i, &esz, true)
                                   : qstack_getat(S, (int) i, &esz, true);
@@ -144,16 +148,19 @@ static void res_str(char *s, int e) {
  * NULL) on the current state, `name=result:errno` per call; nothing may change. Not a windowed
  * call (many library calls; an armed failure stays armed and cannot fire in here). */
 static const char *ename(int e) { return e == EIO ? "EIO" : errname(e); }
-static void iv_bool(const char *name, bool r) { int e = errno; printf(" %s=%s:%s", name, r ? "true" : "false", ename(e)); }
+/* errno is read after a FAILED call only (a successful call may leave any value behind) */
+static void iv_bool(const char *name, bool r) { int e = errno; printf(" %s=%s:%s", name, r ? "true" : "false", r ? "0" : ename(e)); }
 static void iv_data(const char *name, void *d, size_t n, bool own) {
     int e = errno;
     printf(" %s=", name);
     if (d == NULL) printf("null"); else { printf("data"); puthex(stdout, d, n); }
-    printf(":%s", ename(e));
+    printf(":%s", d != NULL ? "0" : ename(e));
     if (d != NULL && own) vf_free(d);
 }
 static void iv_nat(const char *name, size_t v) { printf(" %s=%zu:0", name, v); }
-#define IVB(name, call) do { errno = 0; bool r_ = (call); iv_bool(name, r_); } while (0)
+#define IVB(name, call) do { PLANT(); bool r_ = (call); iv_bool(name, r_); } while (0)
+/* a refusal for which no errno is documented: `kept` when the caller's errno is still there */
+#define IVK(name, call) do { PLANT(); bool r_ = (call); int e_ = errno; printf(" %s=%s:%s", name, r_ ? "true" : "false", r_ ? "0" : e_ == plant_last ? "kept" : ename(e_)); } while (0)
 
 static void inv_list(qlist_t *l) {
     unsigned char x = 'x';
@@ -168,18 +175,18 @@ static void inv_list(qlist_t *l) {
     IVB("addlastsize0", qlist_addlast(l, &x, 0));
     IVB("addabove", qlist_addat(l, n + 1, &x, 1));
     IVB("addbelow", qlist_addat(l, -n - 2, &x, 1));
-    errno = 0; sz = 4242; { void *d = qlist_getat(l, n, &sz, true); iv_data("getabove", d, sz, true); }
-    errno = 0; sz = 4242; { void *d = qlist_getat(l, -n - 1, &sz, false); iv_data("getbelow", d, sz, false); }
-    errno = 0; sz = 4242; { void *d = qlist_popat(l, n, &sz); iv_data("popabove", d, sz, true); }
-    errno = 0; sz = 4242; { void *d = qlist_popat(l, -n - 1, &sz); iv_data("popbelow", d, sz, true); }
+    PLANT(); sz = 4242; { void *d = qlist_getat(l, n, &sz, true); iv_data("getabove", d, sz, true); }
+    PLANT(); sz = 4242; { void *d = qlist_getat(l, -n - 1, &sz, false); iv_data("getbelow", d, sz, false); }
+    PLANT(); sz = 4242; { void *d = qlist_popat(l, n, &sz); iv_data("popabove", d, sz, true); }
+    PLANT(); sz = 4242; { void *d = qlist_popat(l, -n - 1, &sz); iv_data("popbelow", d, sz, true); }
     IVB("removeabove", qlist_removeat(l, n));
     IVB("removebelow", qlist_removeat(l, -n - 1));
-    IVB("nextnull0", qlist_getnext(l, NULL, false));
-    IVB("nextnull1", qlist_getnext(l, NULL, true));
+    IVK("nextnull0", qlist_getnext(l, NULL, false));
+    IVK("nextnull1", qlist_getnext(l, NULL, true));
     IVB("debugnull", qlist_debug(l, NULL));
     /* optional out-pointer left NULL: allowed */
-    errno = 0; { size_t fs = l->first ? l->first->size : 0; void *d = qlist_getfirst(l, NULL, true); iv_data("getfirstnosize", d, fs, true); }
-    errno = 0; { size_t ts = l->datasum; void *d = qlist_toarray(l, NULL); iv_data("toarraynosize", d, ts, true); }
+    PLANT(); { size_t fs = l->first ? l->first->size : 0; void *d = qlist_getfirst(l, NULL, true); iv_data("getfirstnosize", d, fs, true); }
+    PLANT(); { size_t ts = l->datasum; void *d = qlist_toarray(l, NULL); iv_data("toarraynosize", d, ts, true); }
     /* setsize: the current value, the largest value and back */
     { size_t m = l->max; iv_nat("setsame", qlist_setsize(l, m)); iv_nat("sethuge", qlist_setsize(l, (size_t) -1)); iv_nat("setback", qlist_setsize(l, m)); }
 }
@@ -193,12 +200,12 @@ static void inv_qs(void) {
     IVB("pushnull", q ? qqueue_push(Q, NULL, 1) : qstack_push(S, NULL, 1));
     IVB("pushsize0", q ? qqueue_push(Q, &x, 0) : qstack_push(S, &x, 0));
     IVB("pushstrnull", q ? qqueue_pushstr(Q, NULL) : qstack_pushstr(S, NULL));
-    errno = 0; sz = 4242; { void *d = q ? qqueue_getat(Q, n, &sz, true) : qstack_getat(S, n, &sz, true); iv_data("getabove", d, sz, true); }
-    errno = 0; sz = 4242; { void *d = q ? qqueue_getat(Q, -n - 1, &sz, false) : qstack_getat(S, -n - 1, &sz, false); iv_data("getbelow", d, sz, false); }
-    errno = 0; sz = 4242; { void *d = q ? qqueue_popat(Q, n, &sz) : qstack_popat(S, n, &sz); iv_data("popabove", d, sz, true); }
-    errno = 0; sz = 4242; { void *d = q ? qqueue_popat(Q, -n - 1, &sz) : qstack_popat(S, -n - 1, &sz); iv_data("popbelow", d, sz, true); }
+    PLANT(); sz = 4242; { void *d = q ? qqueue_getat(Q, n, &sz, true) : qstack_getat(S, n, &sz, true); iv_data("getabove", d, sz, true); }
+    PLANT(); sz = 4242; { void *d = q ? qqueue_getat(Q, -n - 1, &sz, false) : qstack_getat(S, -n - 1, &sz, false); iv_data("getbelow", d, sz, false); }
+    PLANT(); sz = 4242; { void *d = q ? qqueue_popat(Q, n, &sz) : qstack_popat(S, n, &sz); iv_data("popabove", d, sz, true); }
+    PLANT(); sz = 4242; { void *d = q ? qqueue_popat(Q, -n - 1, &sz) : qstack_popat(S, -n - 1, &sz); iv_data("popbelow", d, sz, true); }
     IVB("debugnull", q ? qqueue_debug(Q, NULL) : qstack_debug(S, NULL));
-    errno = 0; { qlist_t *l = inner(); size_t fs = l->first ? l->first->size : 0;
+    PLANT(); { qlist_t *l = inner(); size_t fs = l->first ? l->first->size : 0;
                  void *d = q ? qqueue_get(Q, NULL, true) : qstack_get(S, NULL, true); iv_data("getnosize", d, fs, true); }
     { size_t m = inner()->max;
       iv_nat("setsame", q ? qqueue_setsize(Q, m) : qstack_setsize(S, m));
@@ -214,7 +221,7 @@ static void inv_grow(void) {
     IVB("addstrempty", qgrow_addstr(G, ""));
     IVB("addstrfempty", qgrow_addstrf(G, "%s", ""));
     IVB("debugnull", qgrow_debug(G, NULL));
-    errno = 0; { size_t ts = G->list->datasum; void *d = qgrow_toarray(G, NULL); iv_data("toarraynosize", d, ts, true); }
+    PLANT(); { size_t ts = G->list->datasum; void *d = qgrow_toarray(G, NULL); iv_data("toarraynosize", d, ts, true); }
 }
 
 
@@ -243,14 +250,14 @@ static void do_lockprobe(void) {
     unsigned char x = 'L';
     printf("lockprobe ");
     if (l->qmutex == NULL) {
-        bool r; errno = 0;
+        bool r; PLANT();
         r = kind == K_LIST ? qlist_addlast(L, &x, 1) : kind == K_QUEUE ? qqueue_push(Q, &x, 1)
           : kind == K_STACK ? qstack_push(S, &x, 1) : qgrow_add(G, &x, 1);
         int e = errno; res_bool(r, e); printf(" nolock");
         return;
     }
     qlist_lock(l);
-    errno = 0;
+    PLANT();
     bool r = kind == K_LIST ? qlist_addlast(L, &x, 1) : kind == K_QUEUE ? qqueue_push(Q, &x, 1)
            : kind == K_STACK ? qstack_push(S, &x, 1) : qgrow_add(G, &x, 1);
     int e = errno;
@@ -264,7 +271,7 @@ static int do_list(int nw, char **w) {
     const char *op = w[0];
     bytes_t a = {0, 0};
     size_t sz = 0;
-    errno = 0;
+    PLANT();
     if (!strcmp(op, "setsize") && nw == 2) {
         size_t old = qlist_setsize(L, strtoull(w[1], NULL, 10));
         printf("old %zu", old);
@@ -323,11 +330,11 @@ static int do_list(int nw, char **w) {
         qlist_obj_t o; memset(&o, 0, sizeof(o));
         printf("walk");
         size_t guard = L->num + 4;
-        errno = 0;
+        PLANT();
         while (qlist_getnext(L, &o, nm)) {
             printf(" "); puthex(stdout, o.data, o.size);
             if (nm) keep(o.data, o.size);
-            errno = 0;
+            PLANT();
             if (guard-- == 0) { printf(" ENDLESS"); break; }
         }
         printf(" end %s", errname(errno));
@@ -358,7 +365,7 @@ static int do_qs(int nw, char **w) {
     bytes_t a = {0, 0};
     size_t sz = 0;
     bool q = kind == K_QUEUE;
-    errno = 0;
+    PLANT();
     if (!strcmp(op, "setsize") && nw == 2) {
         size_t m = strtoull(w[1], NULL, 10);
         printf("old %zu", q ? qqueue_setsize(Q, m) : qstack_setsize(S, m));
@@ -388,7 +395,7 @@ static int do_qs(int nw, char **w) {
     } else if (!strcmp(op, "popstr") && nw == 1) {
         char *s; WIN(s = q ? qqueue_popstr(Q) : qstack_popstr(S)); res_str(s, E);
     } else if (!strcmp(op, "popint") && nw == 1) {
-        int64_t v; WIN(v = q ? qqueue_popint(Q) : qstack_popint(S)); res_int(v, E);
+        int64_t v; WIN0(v = q ? qqueue_popint(Q) : qstack_popint(S)); res_int(v, E);
     } else if (!strcmp(op, "popat") && nw == 2) {
         int i = atoi(w[1]);
         void *d; WIN(d = q ? qqueue_popat(Q, i, &sz) : qstack_popat(S, i, &sz)); res_data(d, sz, E, true);
@@ -398,7 +405,7 @@ static int do_qs(int nw, char **w) {
     } else if (!strcmp(op, "getstr") && nw == 1) {
         char *s; WIN(s = q ? qqueue_getstr(Q) : qstack_getstr(S)); res_str(s, E);
     } else if (!strcmp(op, "getint") && nw == 1) {
-        int64_t v; WIN(v = q ? qqueue_getint(Q) : qstack_getint(S)); res_int(v, E);
+        int64_t v; WIN0(v = q ? qqueue_getint(Q) : qstack_getint(S)); res_int(v, E);
     } else if (!strcmp(op, "getat") && nw == 3) {
         int i = atoi(w[1]); bool nm = atoi(w[2]);
         void *d; WIN(d = q ? qqueue_getat(Q, i, &sz, nm) : qstack_getat(S, i, &sz, nm)); res_data(d, sz, E, nm);
@@ -419,7 +426,7 @@ static int do_grow(int nw, char **w) {
     const char *op = w[0];
     bytes_t a = {0, 0};
     size_t sz = 0;
-    errno = 0;
+    PLANT();
     if (!strcmp(op, "add") && nw == 2) {
         if (!unhex(w[1], &a)) return 0;
         bool r; WIN(r = qgrow_add(G, a.p, a.n)); scribble_free(&a); res_bool(r, E);
@@ -538,6 +545,7 @@ int main(void) {
             long bad = check_kept();
             memset(&cur, 0, sizeof(cur));
             void *p = NULL;
+            plant_restart((unsigned long) k * 3 + (unsigned long) opt);
             if (k == K_LIST) { WIN(L = qlist(opt)); p = L; }
             else if (k == K_QUEUE) { WIN(Q = qqueue(opt)); p = Q; }
             else if (k == K_STACK) { WIN(S = qstack(opt)); p = S; }
